@@ -343,9 +343,9 @@ pub fn run_listener(hist: &[LEv], deviations: &[u64]) -> (Option<(String, String
                 }
                 LEv::Close(s) => {
                     let (e, tsi) = &sessions[*s as usize];
-                    let mut sp = rfc::Spec::minimal(0, *tsi, 0);
-                    sp.a = true;
-                    let _ = rx.push(e, &rfc::encode(&sp), now);
+                    // the close-session packet flute's own sender side builds
+                    let pkt = flute::verif::new_alc_pkt_close_session(&0u128, *tsi);
+                    let _ = rx.push(e, &pkt, now);
                     let w = word(&l2.borrow(), e, *tsi);
                     if out.is_none() && w.ends_with('o') {
                         out = Some(("C18/close-session-packet-without-close-event".into(), format!("after step {} ({:?}) the event word of session {} is {:?}", step, ev, s, w)));
